@@ -307,6 +307,7 @@ func ewExec(r *core.Run, c ewCase) (*core.Fail, string) {
 	}
 	// call
 	var res tensor.Tensor
+	var scalarT *tensor.Dense
 	o := call(func() (e error) {
 		switch c.kind {
 		case "unary":
@@ -337,14 +338,23 @@ func ewExec(r *core.Run, c ewCase) (*core.Fail, string) {
 			case "ST":
 				res, e = binFns[c.op](sv, B.T, opts...)
 			case "TSt":
-				res, e = binFns[c.op](A.T, tensor.New(tensor.FromScalar(sv)), opts...)
+				scalarT = tensor.New(tensor.FromScalar(sv))
+				res, e = binFns[c.op](A.T, scalarT, opts...)
 			case "StT":
-				res, e = binFns[c.op](tensor.New(tensor.FromScalar(sv)), B.T, opts...)
+				scalarT = tensor.New(tensor.FromScalar(sv))
+				res, e = binFns[c.op](scalarT, B.T, opts...)
 			}
 		}
 		return
 	})
 	r.Op(1)
+	// a scalar handed over as a scalar tensor is an operand like any other: it must come back unchanged
+	if scalarT != nil {
+		var now interface{}
+		if oc := call(func() error { now = scalarT.ScalarValue(); return nil }); oc.Class != "ok" || !ref.Same(now, sv) {
+			return core.F("operand-changed", "scalar-tensor", "the scalar tensor operand (value %s) reads %s after the call (%s)", ref.Fmt(sv), ref.Fmt(now), oc), o.Class
+		}
+	}
 	// frame: tensors that are not the destination must be unchanged
 	chk := func(b *atlas.Built, s atlas.Snap, name string) *core.Fail {
 		if b == nil || b == dest {
